@@ -13,7 +13,11 @@ ID = 'C10'
 RULE = ('cases = (Hermitian MPO as in C08 with and without charges, L 2..5, d 2..4, random start state in a sector with arbitrary bond profile; algorithm single-site | two-site; '
         '1..4 sweeps; 2..8 Lanczos iterations or enough (>= local dimension); tol_split in {0, 1e-8, 1e-2} for two-site; optional second invocation on the result); second part: '
         'complete manifolds with enough iterations (exact ground state energy of the sector must be reached). Non-trivial: start energy exceeds the sector ground energy by > 1e-3 scale and a bond >= 2.')
-ASSUME = ['convergence to the sector ground energy is only judged where it is a theorem for a Krylov-based local solver: complete manifold saturated on one side at every bond, enough '
+KEY_F5 = 'dmrg-local-eigensolver-past-undetected-lanczos-breakdown'
+
+ASSUME = ['known finding F5 at its DMRG call site: when a local Lanczos iteration of the run continued past an undetected breakdown (observed at run time by wrapping pytenet.krylov.lanczos_iteration and '
+          'determining the Krylov dimension independently) the reported energies are not reliable: the energy clauses are excluded and counted on exactly those runs, all structural clauses stay enforced',
+          'convergence to the sector ground energy is only judged where it is a theorem for a Krylov-based local solver: complete manifold saturated on one side at every bond, enough '
           'iterations, and a sector block of H that is irreducible (connected); for reducible blocks the run must end in an exact eigenstate of H; a start state (nearly) orthogonal to the ground space is not judged',
           'sector = dense basis states with the total charge of the start state; numpy.linalg.eigvalsh trusted', 'monotonicity of two-site DMRG only judged for tol_split = 0',
           'tolerances 1e-9 max(1, ||H||); ground state convergence (complete manifold) 1e-7 within 6 sweeps for a generic random start']
@@ -58,22 +62,27 @@ def check_dmrg(case, rec):
     def one_call(label, E_before):
         with LanczosMonitor() as mon:
             en = run_dmrg(kind, H, psi, sweeps, iters, tol_split)
+        energy_ok = True
         if mon.past_breakdown:
             rec.label('lanczos_past_breakdown')
+            if known_listed(ID, KEY_F5):
+                rec.excluded_known += 1
+                energy_ok = False
         en = np.asarray(en)
         require(en.shape == (sweeps,), label + ': wrong shape of the energy array', shape=en.shape)
         require(np.all(np.isfinite(en)) and np.isrealobj(en), label + ': energies not finite real numbers')
         v1 = dense_state(psi)
         require(abs(np.linalg.norm(v1) - 1) <= 1e-10, label + ': returned state is not normalized', norm=float(np.linalg.norm(v1)))
         E1 = float(np.vdot(v1, Hd @ v1).real)
-        if tol_split == 0:
+        if tol_split == 0 and energy_ok:
             require(abs(E1 - en[-1]) <= 1e-9 * scale, label + ': energy of the returned state differs from the last reported energy', state=E1, reported=float(en[-1]))
-        require(np.all(en >= E_gs - 1e-9 * scale), label + ': reported energy below the exact ground state energy of the sector', energies=en.tolist(), ground=E_gs)
+        require((not energy_ok) or np.all(en >= E_gs - 1e-9 * scale), label + ': reported energy below the exact ground state energy of the sector', energies=en.tolist(), ground=E_gs)
         require(E1 >= E_gs - 1e-9 * scale, label + ': state energy below the exact ground state energy of the sector (state left its sector?)', E=E1, ground=E_gs)
-        if tol_split == 0:
+        if tol_split == 0 and energy_ok:
             require(en[0] <= E_before + 1e-9 * scale, label + ': first reported energy exceeds the energy of the starting state', first=float(en[0]), start=E_before)
             require(np.all(np.diff(en) <= 1e-9 * scale), label + ': reported energies are not non-increasing', energies=en.tolist())
-        rec.metric('variational_margin_violation', max(0.0, float(np.max(E_gs - en))) / scale)
+        if energy_ok:
+            rec.metric('variational_margin_violation', max(0.0, float(np.max(E_gs - en))) / scale)
         require(all(a.tobytes() == b.tobytes() for a, b in zip(H.A, HA0)), label + ': the Hamiltonian was modified')
         require(np.array_equal(psi.qD[0], q_first) and np.array_equal(psi.qD[-1], q_last), label + ': total quantum numbers of the state changed')
         out = np.abs(v1[~sector_mask(psi.qd, L, total)])
@@ -130,6 +139,9 @@ def check_converges(case, rec):
         en = run_dmrg(kind, H, psi, 6, iters, 0)
     if mon.past_breakdown:
         rec.label('lanczos_past_breakdown')
+        if known_listed(ID, KEY_F5):
+            rec.excluded_known += 1
+            return
     require(np.all(np.diff(en) <= 1e-9 * scale), 'reported energies are not non-increasing', energies=np.asarray(en).tolist())
     require(np.all(np.asarray(en) >= E_gs - 1e-9 * scale), 'reported energy below the exact ground state energy', energies=np.asarray(en).tolist(), ground=E_gs)
     m = sector_mask(psi.qd, L, total)
